@@ -14,10 +14,18 @@ transformations' outputs are run on that evaluator by harness/c08.py):
 * fuel: `Returns` is "there is a fuel with which the evaluator returns"; by `fuel_mono` more fuel
   never changes a definite outcome, so `Returns` is deterministic (`returns_deterministic`).
 
-NOT proved here (see the `_partial` entries at the end): `for` unrolling with index arithmetic,
-loop splitting, zip/enumerate elimination, any/all fusion — covered by differential runs only.
+* `heap_parametricity` (FULL): evaluation commutes with renaming of heap references, garbage cells on the
+  left and extra cells on the right — the tool for every rewrite whose output allocates differently.
+* `for_unroll_peel_sound`, `for_unroll_strict_sound`, `for_unroll_static_sound` (FULL for the blocks
+  `for_unroll.py` emits today, every factor `k ≥ 1`, every list length, any target pattern, any body):
+  same outcome up to heap renaming (`FinRel`); `for_unroll_returns` reads it off for numbers/Booleans.
+  The control arithmetic under `fp.INTEGER` enters through the interface `IntArith` (integer `+`, `-`,
+  `fmod` are exact there) and, for the STRICT `assert`, `IntEq`.
+NOT proved here (see the `_partial` entries at the end): unrolling of NESTED loops (generated names of the
+inner unroll are refreshed per copy), loop splitting, zip/enumerate elimination, any/all fusion.
 -/
-import Fpy.Proof.LangEntry
+import Fpy.Proof.LangIdx9
+import Fpy.Model.Lib
 namespace Fpy.Props.C08
 open Fpy Fpy.Lang Fpy.Xform
 
@@ -101,17 +109,116 @@ example (v : Val) (μ' : Heap) :
   ((while_unroll_sound ⟨[]⟩ (.bool true) earlyBody [.assign (.var "x") (.num (.fv (.fin ⟨false, 0, 0⟩)))]
     [.ret (.var "x")] 5 [] [] fp64).1 v μ')
 
-/-! ### open parts (kept visible; each is exercised by the differential runs of harness/c08.py)
+/-! ### `for` unrolling -/
 
-* `for_unroll_sound_partial` — MISSING: the index-loop schema of `for_unroll.py` (materialise the
-  iterable, `range(len // k)` main loop with `k` indexed reads, peeled remainder / divisibility
-  assertion).  Needs a lemma relating `forLoop` over the materialised list to indexed reads under the
-  integer context; not attempted.
-* `split_loop_sound_partial`, `zip_elim_sound_partial`, `enumerate_elim_sound_partial`,
-  `fuse_any_all_sound_partial` — MISSING likewise.  For these the model evaluator allocates fresh heap
-  cells (`range`, `zip`, `enumerate`, comprehensions), so source and target heaps differ by unreachable
-  cells: the statement needs heap equivalence up to garbage, which this development does not define. -/
-theorem for_unroll_sound_partial (Φ : Funs) (σ : Env) (μ : Heap) (C : Ctx) (r i : Nat) (p : Pat) (body : List Stmt) :
+/-- HEAP-LOCATION PARAMETRICITY (fuel-free form): the same block run in states related by a renaming `π` of
+heap references (`D`: left cells that are garbage; the right heap may have extra cells) ends in related
+states: same error, or related outcome, related heaps, both heaps only grew keeping every cell's length,
+and the extra right cells are untouched. -/
+theorem heap_parametricity {Φ : Funs} {π : RMap} {D : List Nat} {d : Nat} {σ1 σ2 : Env} {μ1 μ2 : Heap}
+    (hd : d ≤ μ1.length) (henv : ER π D d σ1 σ2) (hh : HR π D μ1 μ2) (C : Ctx) (ss : List Stmt) :
+    RelM (QS π D μ1 μ2) (evalBω Φ σ1 μ1 C ss) (evalBω Φ σ2 μ2 C ss) := par_evalBω hd henv hh C ss
+
+/-- … and at every fuel, for every evaluator function -/
+theorem heap_parametricity_fuel (Φ : Funs) (π : RMap) (D : List Nat) (n : Nat) : ParAt Φ π D n := parAt Φ π D n
+
+/-- PEEL strategy, length not statically known: `t = it; with INTEGER: (n = len(t); m = n - fmod(n, k));
+for i in range(0, m, k): (with INTEGER: i₁ = i + 1 …; p = t[i]; body; p = t[i₁]; body; …);
+for i' in range(m, n, 1): (p = t[i']; body)`. -/
+theorem for_unroll_peel_sound {Φ : Funs} {CI : Ctx} (IA : IntArith CI) {C : Ctx} {S : List String}
+    {p : Pat} {it : Expr} {body rest : List Stmt} {t n m idx ridx : String} {offs : List String} {lits : List NV}
+    {z0 zk z1 : NV} {k : Nat}
+    (hk : offs.length + 1 = k) (hlits : offs.length = lits.length)
+    (hl : ∀ j (h : j < lits.length), nvInt? lits[j] = some ((1 + j : Nat) : Int))
+    (hz0 : nvInt? z0 = some 0) (hzk : nvInt? zk = some (k : Int)) (hz1 : nvInt? z1 = some 1)
+    (hnd : (t :: n :: m :: ridx :: idx :: offs).Nodup)
+    (hfresh : ∀ z ∈ t :: n :: m :: ridx :: idx :: offs, z ∉ S ∧ z ∉ bvP p ++ bvB body)
+    (hbody : ∀ z ∈ readsB body, z ∈ S) (hrest : ∀ z ∈ readsB rest, z ∈ S)
+    {σ : Env} {μ : Heap} (hwfh : WFH μ) (hwfe : WFE σ μ) :
+    FinRel S (evalBω Φ σ μ C (.for p it body :: rest))
+      (evalBω Φ σ μ C (forUnrollPeel CI p it body t n m idx ridx offs lits z0 zk z1 ++ rest)) :=
+  for_unroll_peel_rel IA hk hlits hl hz0 hzk hz1 hnd hfresh hbody hrest hwfh hwfe
+
+/-- STRICT strategy, length not statically known, when the length is a multiple of `k`; otherwise the emitted
+`assert` fails (`strict_prelude_eval`). -/
+theorem for_unroll_strict_sound {Φ : Funs} {CI : Ctx} (IA : IntArith CI) (IE : IntEq) {C : Ctx} {S : List String}
+    {p : Pat} {it : Expr} {body rest : List Stmt} {t n idx : String} {offs : List String} {lits : List NV}
+    {z0 zk : NV} {k : Nat}
+    (hk : offs.length + 1 = k) (hlits : offs.length = lits.length)
+    (hl : ∀ j (h : j < lits.length), nvInt? lits[j] = some ((1 + j : Nat) : Int))
+    (hz0 : nvInt? z0 = some 0) (hzk : nvInt? zk = some (k : Int))
+    (hnd : (t :: n :: idx :: offs).Nodup)
+    (hfresh : ∀ z ∈ t :: n :: idx :: offs, z ∉ S ∧ z ∉ bvP p ++ bvB body)
+    (hbody : ∀ z ∈ readsB body, z ∈ S) (hrest : ∀ z ∈ readsB rest, z ∈ S)
+    {σ : Env} {μ : Heap} (hwfh : WFH μ) (hwfe : WFE σ μ)
+    (hdiv : ∀ r l μ0, evalEω Φ σ μ C it = .ok (.list r, μ0) → μ0[r]? = some l → l.length % k = 0) :
+    FinRel S (evalBω Φ σ μ C (.for p it body :: rest))
+      (evalBω Φ σ μ C (forUnrollStrict CI p it body t n idx offs lits z0 zk ++ rest)) :=
+  for_unroll_strict_rel IA IE hk hlits hl hz0 hzk hnd hfresh hbody hrest hwfh hwfe hdiv
+
+/-- statically known length `k·q + zps.length` (PEEL: main loop to the literal `k·q` if `q > 0`, the rest peeled
+with literal indices; STRICT with a known length is the case `zps = []`) -/
+theorem for_unroll_static_sound {Φ : Funs} {CI : Ctx} (IA : IntArith CI) {C : Ctx} {S : List String}
+    {p : Pat} {it : Expr} {body rest : List Stmt} {t idx : String} {offs : List String} {lits : List NV}
+    {z0 zm zk : NV} {zps : List NV} {k q : Nat} {withMain : Bool}
+    (hk : offs.length + 1 = k) (hlits : offs.length = lits.length)
+    (hl : ∀ j (h : j < lits.length), nvInt? lits[j] = some ((1 + j : Nat) : Int))
+    (hz0 : nvInt? z0 = some 0) (hzk : nvInt? zk = some (k : Int)) (hzm : nvInt? zm = some ((k * q : Nat) : Int))
+    (hzps : ∀ j (h : j < zps.length), nvInt? zps[j] = some ((k * q + j : Nat) : Int))
+    (hmain : withMain = false → q = 0)
+    (hnd : (t :: idx :: offs).Nodup)
+    (hfresh : ∀ z ∈ t :: idx :: offs, z ∉ S ∧ z ∉ bvP p ++ bvB body)
+    (hbody : ∀ z ∈ readsB body, z ∈ S) (hrest : ∀ z ∈ readsB rest, z ∈ S)
+    {σ : Env} {μ : Heap} (hwfh : WFH μ) (hwfe : WFE σ μ)
+    (hsize : ∀ v μ0, evalEω Φ σ μ C it = .ok (v, μ0) → ∃ r l, v = .list r ∧ μ0[r]? = some l ∧ l.length = k * q + zps.length) :
+    FinRel S (evalBω Φ σ μ C (.for p it body :: rest))
+      (evalBω Φ σ μ C (forUnrollStatic CI p it body t idx offs lits z0 zm zk zps withMain ++ rest)) :=
+  for_unroll_static_rel IA hk hlits hl hz0 hzk hzm hzps hmain hnd hfresh hbody hrest hwfh hwfe hsize
+
+/-- what `FinRel` says about observable results: the same errors, and the same returned numbers, Booleans and
+contexts (for returned lists/tuples: the same up to the renaming of references, with corresponding contents) -/
+theorem for_unroll_returns {Φ : Funs} {S : List String} {σ : Env} {μ : Heap} {C : Ctx} {ss ss' : List Stmt}
+    (h : FinRel S (evalBω Φ σ μ C ss) (evalBω Φ σ μ C ss')) :
+    (∀ v, flatV v = true → ((∃ m, Returns Φ σ μ C ss v m) ↔ (∃ m, Returns Φ σ μ C ss' v m))) ∧
+    (∀ e, evalBω Φ σ μ C ss = .error e ↔ evalBω Φ σ μ C ss' = .error e) :=
+  ⟨fun _ hv => h.returns_flat_iff hv, fun e => h.fails e⟩
+
+/-! non-vacuity: `s = 0; for x in [1, 2, 3]: s = s + x; return s` unrolled by 2 (PEEL), evaluated -/
+
+def nI (i : Int) : NV := .fv (.fin (RF.ofInt i))
+def sumBody : List Stmt := [.assign (.var "s") (.op .add [.var "s", .var "x"])]
+def xsE : Expr := .list [.num (nI 1), .num (nI 2), .num (nI 3)]
+def origP : List Stmt := [.assign (.var "s") (.num (nI 0)), .for (.var "x") xsE sumBody, .ret (.var "s")]
+def emitP : List Stmt := [.assign (.var "s") (.num (nI 0))] ++
+  forUnrollPeel Fpy.Lib.integerCtx (.var "x") xsE sumBody "t" "n" "m" "i" "i2" ["i1"] [nI 1] (nI 0) (nI 2) (nI 1) ++
+  [.ret (.var "s")]
+
+example : retNum (evalB ⟨[]⟩ 60 [] [] fp64 origP) = some (nI 6) := by decide
+example : retNum (evalB ⟨[]⟩ 60 [] [] fp64 emitP) = some (nI 6) := by decide
+/-- the side conditions are satisfiable: fresh distinct names, literals with the right integer readings -/
+example : ("t" :: "n" :: "m" :: "i2" :: "i" :: ["i1"]).Nodup := by decide
+example : ∀ z ∈ "t" :: "n" :: "m" :: "i2" :: "i" :: ["i1"], z ∉ ["s", "x"] ∧ z ∉ bvP (.var "x") ++ bvB sumBody := by decide
+example : ∀ z ∈ readsB sumBody, z ∈ ["s", "x"] := by decide
+example : nvInt? (nI 2) = some 2 := by decide
+/-- and the interface `IntArith` holds of `fp.INTEGER` on samples -/
+example : (opEval Fpy.Lib.integerCtx .add [cvtReal (nI 7), cvtReal (nI 5)]).toOption.map nvInt? = some (some 12) := by decide
+example : (opEval Fpy.Lib.integerCtx .fmod [cvtReal (.q 3 1), cvtReal (nI 2)]).toOption.map nvInt? = some (some 1) := by decide
+example : (opEval Fpy.Lib.integerCtx .sub [cvtReal (.q 3 1), cvtReal (nI 1)]).toOption.map nvInt? = some (some 2) := by decide
+
+/-! ### open parts (each is exercised by the differential runs of harness/c08.py)
+
+* `IntArith fp.INTEGER`, `IntEq` — the two number-layer interfaces are hypotheses of the unrolling theorems,
+  checked on samples above; a proof belongs to the rounding development (C02/C05: `MPFixedContext(-1, RTZ)`
+  is exact on integers).
+* `for_unroll_nested_partial` — MISSING: unrolling an outer loop whose body contains an already unrolled inner
+  loop refreshes the inner loop's generated names per copy (`RenameTarget`); needs the simulation checker
+  composed with parametricity.
+* `split_loop_sound_partial`, `zip_elim_sound_partial`, `enumerate_elim_sound_partial`, `fuse_any_all_sound_partial`
+  — MISSING.  The tools are here (`heap_parametricity` with garbage on the left, `forstmt_cont` for an emitted
+  `for i in range(a, b, k)`); missing are the nested-`range` loop of `split_loop.py` (the renaming changes at
+  every outer iteration), and for the iterator eliminations a "body writes no list ⇒ old cells unchanged"
+  invariant relating the snapshot `zip`/`enumerate` take to the live lists the indexed loop reads. -/
+theorem for_unroll_nested_partial (Φ : Funs) (σ : Env) (μ : Heap) (C : Ctx) (r i : Nat) (p : Pat) (body : List Stmt) :
     forLoopω Φ σ μ C r i p body =
       (do let l ← heapGet μ r
           match l[i]? with
@@ -122,9 +229,6 @@ theorem for_unroll_sound_partial (Φ : Funs) (σ : Env) (μ : Heap) (C : Ctx) (r
             match o with
             | .ret v => .ok (.ret v, μ')
             | .normal σ'' => forLoopω Φ σ'' μ' C r (i + 1) p body) :=
-  -- PROVED PART: the fuel-free semantics of one `for` iteration (read element `i` of the LIVE list,
-  -- bind, run the body, continue at `i + 1`), from which `k`-fold peeling at the semantic level is `k`
-  -- rewrites.  MISSING: the source-level schema (temporaries, `range`, index arithmetic under INTEGER).
   forLoopω_eq Φ σ μ C r i p body
 
 end Fpy.Props.C08
